@@ -343,6 +343,10 @@ class ConditionEvaluator(ast.NodeVisitor):
         self.errors.append(InvalidEvaluation(message, node))
         return ConditionReturn(NullCondition())
 
+    def generic_visit(self, node: ast.AST) -> ConditionReturn:
+        # Any kind of expression without a visit_* method (e.g., a walrus)
+        return self.return_invalid("Unsupported condition", node)
+
     def visit_Call(self, node: ast.Call) -> ConditionReturn:
         if not isinstance(node.func, ast.Name):
             return self.return_invalid("Unexpected call", node.func)
